@@ -51,6 +51,7 @@ def _child_main(inv: dict, wfd: int) -> None:
     exc_msg = ""
     seams = None
     session_results = None  # type: typing.Any
+    after_hooks = []  # type: typing.List[typing.Callable[[], None]]
     try:
         for k in inv.get("env_unset", []):
             os.environ.pop(k, None)
@@ -75,7 +76,9 @@ def _child_main(inv: dict, wfd: int) -> None:
             import importlib
 
             mod_name, fn_name = hook.split(":")
-            getattr(importlib.import_module(mod_name), fn_name)(seams)
+            after = getattr(importlib.import_module(mod_name), fn_name)(seams)
+            if callable(after):
+                after_hooks.append(after)  # (a hook may hand back what it wants to do once the invocation is over)
         sys.stdout = out
         sys.stderr = err
         for pre_argv in inv.get("prelude", []):
@@ -118,6 +121,8 @@ def _child_main(inv: dict, wfd: int) -> None:
         except BaseException as ex:  # pylint: disable=broad-except
             status = "exc:%s" % type(ex).__name__
             exc_msg = "%s\n%s" % (ex, traceback.format_exc(limit=12))
+        for after in after_hooks:
+            after()
     except SeamMissing as ex:
         status = "harness"
         exc_msg = "seam missing: %s" % ex
